@@ -179,7 +179,7 @@ func (w *govcTW) node(n *govcNode) {
 }
 
 var govcKWs = []string{"container", "leaf", "description", "x", "ünï", "a-b.c", "p:ext", "type", "k9", "must"}
-var govcPieces = []string{"a", "b c", "name1", "", " lead", "two\nlines", "x\n\n  y", "tab\there", "quo\"te", "sin'gle", "back\\slash", "é ü", "a;b{c}d", "//not-a-comment", "/* nor this */", "semi;", "+", "1+2", "trail \nnext", "\r\n", "plus + plus", "  ", "dbl\\\\bs", "\\n-not-a-line-break", "\\", "\n\" q", "\n\\ b", "\n\t z"}
+var govcPieces = []string{"he said \"\nhi", "path c:\\\nnext", "a \" \\\nb", "q \"\"\n\"", "a", "b c", "name1", "", " lead", "two\nlines", "x\n\n  y", "tab\there", "quo\"te", "sin'gle", "back\\slash", "é ü", "a;b{c}d", "//not-a-comment", "/* nor this */", "semi;", "+", "1+2", "trail \nnext", "\r\n", "plus + plus", "  ", "dbl\\\\bs", "\\n-not-a-line-break", "\\", "\n\" q", "\n\\ b", "\n\t z"}
 
 func govcRandArg(rng *rand.Rand) string {
 	a := govcPieces[rng.Intn(len(govcPieces))]
